@@ -15,6 +15,8 @@ import DriverLib.C02
 import DriverLib.C08
 import DriverLib.C09
 import DriverLib.C10
+import DriverLib.C13
+import DriverLib.C16
 open Lean Drv
 
 def handlers : List (String → Json → Option (R Json)) := [
@@ -28,6 +30,8 @@ def handlers : List (String → Json → Option (R Json)) := [
   Drv.C08.handle,
   Drv.C09.handle,
   Drv.C10.handle,
+  Drv.C13.handle,
+  Drv.C16.handle,
   fun _ _ => none]
 
 def dispatch (line : String) : Json :=
